@@ -48,15 +48,14 @@ PlanC01Quick ==
 Hand2 == {L2mixed, L2one, L2sym, L2gap, L2tx}
 PlanC01Thorough ==
   [sample2 |-> E("sample", All1 \cup Hand2,                                   1, {}, TRUE),
-   sample4 |-> E("sample", {L4mixed},                                         1, {}, TRUE),
-   sample5 |-> E("sample", {L4span},                                          1, {}, FALSE),
+   sample4 |-> E("sample", {L4mixed, L4span},                                 1, {}, TRUE),
    row2    |-> E("row",    All1 \cup All2s,                                   2, {}, TRUE),
    row4    |-> E("row",    {L4mixed, L4span},                                 2, {"side", "swap", "cell2", "cellT"}, TRUE),
    rnd2    |-> E("rnd",    All2s \cup {L2tx},                                 1, {}, TRUE),
-   rnd4    |-> E("rnd",    {L4mixed},                                         1, {}, TRUE),
-   rnd5    |-> E("rnd",    {L4span, L4gaps},                                  1, {}, FALSE),
+   rnd4    |-> E("rnd",    {L4mixed, L4span},                                 1, {}, TRUE),
+   rnd5    |-> E("rnd",    {L4gaps},                                          1, {}, FALSE),
    range2  |-> E("range",  Hand2 \cup All1,                                   2, RangeT, TRUE),
-   range4  |-> E("range",  {L4one},                                           2, {"slice"}, FALSE),
+   range4  |-> E("range",  {L4one},                                           2, {"slice", "slice0"}, FALSE),
    range5  |-> E("range",  {L4span, L4mixed},                                 1, {}, FALSE)]
 
 (* the verifier as it was before "fix: range verification must check per-row share counts" *)
@@ -74,6 +73,6 @@ PlanC02Thorough ==
    nd2b   |-> E("nd",     {L2mixed, L2gap, L2one, L2tx},                      2, NdT, TRUE),
    nd4    |-> E("nd",     {L4mixed, L4span, L4gaps, L4one},                   2, {"rm", "move"}, TRUE),
    rnd2   |-> E("rnd",    All2s \cup {L2tx},                                  1, {}, TRUE),
-   rnd4   |-> E("rnd",    {L4gaps},                                           1, {}, TRUE),
-   rnd5   |-> E("rnd",    {L4mixed, L4span},                                  1, {}, FALSE)]
+   rnd4   |-> E("rnd",    {L4gaps, L4mixed},                                  1, {}, TRUE),
+   rnd5   |-> E("rnd",    {L4span},                                           1, {}, FALSE)]
 =============================================================================
